@@ -30,7 +30,7 @@ def run(ctx):
         raise core.ToolFailure("design-level invariant %s of Cli.tla is violated in the model" % mc.violated)
     rep = ctx.read_harness_report(ctx.harness("replay_cli", [mc.out_path, binary, ctx.work / "cli"], out_name="replay_cli.out", timeout=3000))
     for need in ("exit:zero", "exit:one", "exit:usage", "input:valid", "input:missing", "input:directory", "input:empty", "input:notadump", "input:unprocessable",
-                 "symbols:http_cache", "symbols:http_default", "symbols:both", "sink:cyborg_bad", "sink:outfile_bad", "logf:ok:log", "logf:bad:stderr"):
+                 "symbols:http_cache", "symbols:http_default", "symbols:both", "sink:cyborg_bad", "sink:outfile_bad", "sink:outfile_full", "logf:ok:log", "logf:bad:stderr"):
         if rep["classes"].get(need, 0) == 0:
             raise core.ToolFailure("vacuous replay: class %s never exercised" % need)
     cov = {
